@@ -119,7 +119,9 @@ theorem mem_expandBounds (p : Option Nat × Option Nat) (n : Nat) :
     | none => simp [expandBounds, InBounds]
     | some lo => simp [expandBounds, InBounds, mem_upto]
 
-/-- **range_expands**: an accepted, non-empty range text has a begin object `b`, an iterated
+/-- **range_expands**: an accepted, non-empty range text — since fix f223496 of `/repo` a part is
+cut only at a hyphen between two digits (`splitIv`), so texts with a hyphenated prefix such as
+`Port-channel1-3` or `Bundle-Ether10-12,15` are accepted and inside this theorem — has a begin object `b`, an iterated
 attribute `a` (the last numeric component of `b`) and bounds `ps`, one per comma-separated part.
 When every part carries the iterated component (`ns` are the denoted integers), the members are
 exactly `b` with that component varied over `ns`: each once, ascending in the `<` of the
@@ -178,5 +180,13 @@ example : ((parseRange "Eth1/1-3,5,2,9-7".toList).toOption.map (fun d => d.map (
           = some [(some 1, 1), (some 1, 2), (some 1, 3), (some 1, 5)] := by decide
 example : ((plan "Eth1/1-3,5,2,9-7".toList).toOption.map (fun r => (r.2.1, r.2.2)))
           = some (Attr.port, [(some 1, some 3), (some 5, none), (some 2, none), (some 9, some 7)]) := by decide
+
+-- non-vacuity on a hyphenated prefix: the hyphen of `Port-channel` is not an interval hyphen
+example : splitIv "Port-channel1-3".toList = ["Port-channel1".toList, "3".toList] := by decide
+example : ((parseRange "Port-channel1-3,7".toList).toOption.map (fun d => d.map (fun i => (i.pfx, i.port))))
+          = some [("Port-channel".toList, 1), ("Port-channel".toList, 2), ("Port-channel".toList, 3),
+                  ("Port-channel".toList, 7)] := by decide
+example : ((plan "Port-channel1-3,7".toList).toOption.map (fun r => (r.2.1, r.2.2)))
+          = some (Attr.port, [(some 1, some 3), (some 7, none)]) := by decide
 
 end Ccp.C15
